@@ -220,12 +220,31 @@ func ruleAggrSem(p *Prog, r *Result) {
 		}
 		okInt, okFloat := false, false
 		badDir := ""
+		type cand struct {
+			a    Atom
+			succ *ssa.BasicBlock
+		}
+		var cands []cand
 		for _, b := range up.Blocks {
 			for si := range b.Succs {
-				a, ok := edgeAtom(b, si)
-				if !ok {
-					continue
+				if a, ok := edgeAtom(b, si); ok {
+					cands = append(cands, cand{a, b.Succs[si]})
 				}
+			}
+			// the comparison may be computed into a Boolean first: `smaller = f.fmin > fval` ... `if smaller {`
+			if f := ifOf(b); f != nil {
+				if ph, ok := f.Cond.(*ssa.Phi); ok {
+					for _, e := range ph.Edges {
+						if a, ok := condAtom(e, true); ok {
+							cands = append(cands, cand{a, b.Succs[0]})
+						}
+					}
+				}
+			}
+		}
+		{
+			for _, cd := range cands {
+				a := cd.a
 				x, y, op := a.X, a.Y, a.Op
 				if o, _, _, isL := loadedField(y); isL && o == t {
 					x, y, op = y, x, swapOp(op)
@@ -239,7 +258,7 @@ func ruleAggrSem(p *Prog, r *Result) {
 				}
 				// the edge on which the stored fields are overwritten
 				replaces := false
-				for _, in := range b.Succs[si].Instrs {
+				for _, in := range cd.succ.Instrs {
 					if st, ok := in.(*ssa.Store); ok {
 						if o2, _, _, ok := fieldOfAddr(st.Addr); ok && o2 == t {
 							replaces = true
